@@ -87,7 +87,13 @@ def _items(rng):
                 spec = {"hex": bytes(rng.randrange(256) for _ in range(ln)).hex()}
             else:
                 spec = {"pat": [rng.randint(0, 250), ln]}
-            items.append({"d": "incbin", "f": rng.choice([f"data{nbin}.bin", f"data{nbin}.bin", f"sub/blob{nbin}.dat", f"sub/deep/x{nbin}.b.in"]), "spec": spec})
+            fname = rng.choice([f"data{nbin}.bin", f"data{nbin}.bin", f"sub/blob{nbin}.dat", f"sub/deep/x{nbin}.b.in"])
+            if rng.random() < 0.4:
+                # different files with the same base name in different directories (their symbols carry the whole path)
+                fname = rng.choice(["", "", "sub/", "sub/deep/", "gfx/"]) + rng.choice(["title.bin", "blob.dat"])
+                if any(it["d"] == "incbin" and it["f"] == fname for it in items):
+                    fname = f"u{nbin}/" + fname
+            items.append({"d": "incbin", "f": fname, "spec": spec})
             nbin += 1
     return items
 
